@@ -290,23 +290,39 @@ impl SignedPublicSubKey {
     where
         V: VerifyingKey + Serialize,
     {
-        ensure!(!self.signatures.is_empty(), "missing subkey bindings");
-
-        // TODO: It's sufficient if the latest binding signature is valid
-        for sig in &self.signatures {
-            sig.verify_subkey_binding(key, &self.key)?;
-
-            // If the subkey is signing capable, check the embedded backward signature
-            if sig.key_flags().sign() {
-                let Some(backsig) = sig.embedded_signature() else {
-                    bail!("missing embedded signature for signing capable subkey");
-                };
-                backsig.verify_primary_key_binding(&self.key, key)?;
-            }
-        }
-
-        Ok(())
+        verify_subkey_bindings(key, &self.key, &self.signatures)
     }
+}
+
+/// Verifies the binding signatures of a subkey against the primary key `key`.
+///
+/// Shared between [`SignedPublicSubKey`] and [`SignedSecretSubKey`](super::SignedSecretSubKey),
+/// so that the same certificate is judged identically in its public and its secret form.
+pub(super) fn verify_subkey_bindings<V, K>(
+    key: &V,
+    subkey: &K,
+    signatures: &[packet::Signature],
+) -> Result<()>
+where
+    V: VerifyingKey + Serialize,
+    K: VerifyingKey + Serialize,
+{
+    ensure!(!signatures.is_empty(), "missing subkey bindings");
+
+    // TODO: It's sufficient if the latest binding signature is valid
+    for sig in signatures {
+        sig.verify_subkey_binding(key, subkey)?;
+
+        // If the subkey is signing capable, check the embedded backward signature
+        if sig.key_flags().sign() {
+            let Some(backsig) = sig.embedded_signature() else {
+                bail!("missing embedded signature for signing capable subkey");
+            };
+            backsig.verify_primary_key_binding(subkey, key)?;
+        }
+    }
+
+    Ok(())
 }
 
 impl EncryptionKey for SignedPublicSubKey {
